@@ -7,9 +7,64 @@ ORDER = ["avl", "hash", "seq", "life", "str", "variant", "buffer", "rc", "future
 B, E = "<!-- BEGIN AS-BUILT -->", "<!-- END AS-BUILT -->"
 
 
+SB, SE = "<!-- BEGIN SEEDED -->", "<!-- END SEEDED -->"
+FB, FE = "<!-- BEGIN FIXED -->", "<!-- END FIXED -->"
+
+
+def seeded_table():
+    import json
+    rows = ["| seed | property | what the change does (author: independent sub-agent) | needs | caught by | how |", "|---|---|---|---|---|---|"]
+    n = det = 0
+    for d in sorted((VERIF / "seeded").iterdir()):
+        if not (d / "meta.json").exists() or d.name.startswith("_"):
+            continue
+        m = json.loads((d / "meta.json").read_text())
+        r = json.loads((d / "result.json").read_text()) if (d / "result.json").exists() else {}
+        by = ", ".join(r.get("detected_by", [])) or "**missed**"
+        how = ""
+        for run in reversed(r.get("runs", [])):
+            for p, x in run["results"].items():
+                if x.get("detected"):
+                    v = x["violations"][0] if x.get("violations") else ""
+                    how = f"{x['tier']}: " + ("broken proof/correspondence, no failing input" if "no-failing-input-found" in v else "concrete failing input")
+            if how:
+                break
+        n += 1
+        det += 1 if r.get("detected_by") else 0
+        cut = lambda t, k: (t[:k] + "…") if len(t) > k else t
+        rows.append(f"| {d.name} | {m.get('property')} | {cut(str(m.get('summary','')).replace('|','/').replace(chr(10),' '), 260)} | "
+                    f"{cut(str(m.get('needs','')).replace('|','/').replace(chr(10),' '), 200)} | {by} | {how} |")
+    return f"{det} of {n} confirmed seeded changes are reported by the check of the property they break.\n\n" + "\n".join(rows)
+
+
+def fixed_table():
+    import json
+    kf = json.loads((VERIF / "known_findings.json").read_text())
+    rows = ["| property | commit | repaired defect |", "|---|---|---|"]
+    for e in kf.get("fixed", []):
+        rows.append(f"| {e['property']} | {e['commit']} | {e['what'].replace('|','/')} |")
+    out = f"{len(kf.get('fixed', []))} `fix:` commits in /repo (patch files under fixes/<area>/):\n\n" + "\n".join(rows)
+    out += "\n\nOpen known findings (reported as KNOWN-FINDING, exit 0):\n\n"
+    for e in kf.get("findings", []):
+        out += f"* {e['id']} ({e['property']}, {e.get('status')}): {e['what']}\n"
+    return out
+
+
+def put(s, b, e, body, before):
+    blk = b + "\n\n" + body + "\n\n" + e
+    if b in s and e in s:
+        return s[:s.index(b)] + blk + s[s.index(e) + len(e):]
+    i = s.index(before)
+    return s[:i] + blk + "\n\n" + s[i:]
+
+
 def main():
     d = VERIF / "DESIGN.md"
     s = d.read_text()
+    s = put(s, FB, FE, "### 4b. Defects repaired and findings kept (generated from known_findings.json)\n\n" + fixed_table(),
+            "--------------------------------------------------------------------------------------\n## 5. Trusted base")
+    s = put(s, SB, SE, "### 4c. Seeded changes and which checks catch them (generated from seeded/*/result.json)\n\n" + seeded_table(),
+            "--------------------------------------------------------------------------------------\n## 5. Trusted base")
     parts = []
     for a in ORDER:
         f = VERIF / "docs" / f"{a}.md"
